@@ -1,6 +1,15 @@
 //! Pkarr packet store used to resolve DNS queries.
 
-use std::{collections::BTreeMap, num::NonZeroUsize, path::Path, sync::Arc, time::Duration};
+use std::{
+    collections::BTreeMap,
+    num::NonZeroUsize,
+    path::Path,
+    sync::{
+        Arc,
+        atomic::{AtomicU64, Ordering},
+    },
+    time::Duration,
+};
 
 use hickory_server::proto::{
     ProtoError,
@@ -45,6 +54,9 @@ pub(crate) struct ZoneStore {
     store: Arc<SignedPacketStore>,
     dht: Option<Dht>,
     metrics: Arc<Metrics>,
+    /// Counts accepted publishes. A lookup that read the store before a publish was
+    /// acknowledged must not fill the cache with what it read.
+    publish_epoch: Arc<AtomicU64>,
 }
 
 impl ZoneStore {
@@ -91,6 +103,7 @@ impl ZoneStore {
             cache: Arc::new(Mutex::new(zone_cache)),
             dht: None,
             metrics,
+            publish_epoch: Default::default(),
         }
     }
 
@@ -117,12 +130,23 @@ impl ZoneStore {
         }
 
         // Check persistent store
+        let epoch = self.publish_epoch.load(Ordering::Acquire);
         if let Some(packet) = self.store.get(pubkey).await? {
             trace!(packet_timestamp = ?packet.timestamp(), "store hit");
             #[cfg(iroh_verif)]
             iroh_base::verif::apoint("zone_store.resolve.after_store_get").await;
             let mut cache = self.cache.lock().await;
-            let result = cache.insert_and_resolve(&packet, name, record_type);
+            let result = if self.publish_epoch.load(Ordering::Acquire) == epoch {
+                cache.insert_and_resolve(&packet, name, record_type)
+            } else {
+                // A publish was acknowledged while we were reading the store and has already
+                // invalidated the cache (or is about to): what we read may be the replaced
+                // packet. Answer from it, but do not cache it.
+                drop(cache);
+                CachedZone::from_signed_packet(&packet)
+                    .anyerr()
+                    .map(|zone| zone.resolve(name, record_type))
+            };
             return match result {
                 Ok(Some(rset)) => {
                     debug!(
@@ -186,6 +210,7 @@ impl ZoneStore {
             #[cfg(iroh_verif)]
             iroh_base::verif::apoint("zone_store.insert.after_upsert").await;
             self.metrics.pkarr_publish_update.inc();
+            self.publish_epoch.fetch_add(1, Ordering::Release);
             self.cache.lock().await.remove(&pubkey);
             Ok(true)
         } else {
@@ -216,6 +241,7 @@ impl ZoneStore {
             cache: Arc::new(Mutex::new(zone_cache)),
             dht: None,
             metrics,
+            publish_epoch: Default::default(),
         })
     }
 }
